@@ -7,12 +7,22 @@
    NewMergeHandler result serves k connections); every step carries its
    session.  The model of the handler is the product of k session models
    (MergeMulti.v), the oracle judges what each session saw on its own. *)
-From Moc Require Import Base Match Merge MergeMulti.
+From Moc Require Import Base Match Merge MergeMulti MergeJoint.
 Open Scope Z_scope.
 
+(** [MJoint]: one session in which some runs of child messages were emitted
+    without the harness's sentinel in between (a sentinel is itself a message
+    that reaches the client, so a history observed step by step never shows
+    two merged replies next to each other).  Such a run is a group of inputs
+    with ONE joint observation.  The model runs the group input by input; when
+    the concatenation of its outputs is the observation, that is also how the
+    observation is attributed to the steps for the oracle; when it is not, the
+    whole observation is attributed to the last step of the group (the model
+    difference is reported in any case). *)
 Inductive case :=
 | MCase (n : nat) (failed : bool) (t : otrace)
-| MMulti (n : nat) (failed : bool) (k : nat) (t : mtrace).
+| MMulti (n : nat) (failed : bool) (k : nat) (t : mtrace)
+| MJoint (n : nat) (failed : bool) (t : jtrace).
 
 (** (the model reproduces the observation step by step,
      the C09 oracle accepts the observation) *)
@@ -24,6 +34,12 @@ Definition run_case (c : case) : bool * bool :=
                       | None => false
                       end,
        negb failed && c09_oracle n t)
+  | MJoint n failed t =>
+      match new_session n with
+      | Some s => let '(a, tr) := joint_split s t in
+                  (negb failed && a, negb failed && c09_oracle n tr)
+      | None => (false, false)
+      end
   | MMulti n failed k t =>
       (negb failed && match new_handler n k with
                       | Some ss => multi_agrees ss t
